@@ -14,6 +14,7 @@ func init() { register("C13", checkC13) }
 
 func checkC13(c *Ctx) {
 	r := c.R
+	r.Rule("R13.6", "failures leave no sticky state in a lock: every mutex the package acquires is released on every path to a return (the error return included), and the failure diagnostic is not logged while a mutex the sink needs is held")
 	r.Rule("R13.1", "fan-out continues: the loop of LWs.Write over the members has the natural exit only (no return, break, goto or panic in its body); the error edge rejoins the loop; each member gets the whole payload")
 	r.Rule("R13.2", "bounded reaction: every call from the sink (or a helper it calls) back into the logging entry points is dominated by err != nil and by lvl != C, and the only severity such a call can issue is that same C (so the nested record cannot trigger another diagnostic): recursion depth at most 2, at most one diagnostic per failing record, none for a warning")
 	r.Rule("R13.3", "the logging call returns normally on a failed Write: no explicit panic and no single-result assertion on the error value in the sink, the fan-out and the helpers they call")
@@ -38,6 +39,7 @@ func checkC13(c *Ctx) {
 		}
 		c13Fanout(c, p, m)
 		c13Reaction(c, p, m)
+		lockDiscipline(c, p, "R13.6")
 		c02Counts(c, p, m)
 		c08Pools(c, p, m)
 		c01Gates(c, p, m, tags)
